@@ -161,7 +161,8 @@ def apply_real(m, op, arg_obj=None):
         elif k == "createn":                             # wave 7: create_agents called directly
             m.create_agents({"name": TYPES[op[1]], "count": op[2]})
         elif k == "delown":
-            m.delete_agents(m.agent_ids(TYPES[op[1]]) if op[2] == "ids" else m.agent_type_map[TYPES[op[1]]])
+            tm = own(m, "agent_type_map")                 # read by name: absent after a rename -> the public accessor
+            m.delete_agents(m.agent_ids(TYPES[op[1]]) if op[2] == "ids" or not isinstance(tm, dict) else tm[TYPES[op[1]]])
         elif k == "create":
             m.create_agent(TYPES[op[1]], {})
         elif k == "delete":
@@ -279,9 +280,24 @@ def query_one(m, op, scripted=True):
     raise ValueError(op)
 
 
-def query_real(m):
-    """Canonical line, same format as Drive/C14.lean `query`."""
-    nxt = m.next_agent_id
+def own(m, name):
+    """an INSTANCE attribute read by name (None when a refactoring renamed it). Not getattr: Model.__getattr__ serves
+    model properties as attributes, and the histories configure properties called `agents`, `next_agent_id`,
+    `agent_type_map` on purpose."""
+    return m.__dict__.get(name)
+
+
+def query_real(m, hint=0):
+    """Canonical line, same format as Drive/C14.lean `query`.  `next_agent_id` is read by name: when a refactoring
+    renamed it the field is reported as `next=*` (not compared) and the lookups range over `hint` ids."""
+    nxt = own(m, "next_agent_id")
+    if not isinstance(nxt, int):
+        ids = ";".join(query_one(m, ("q", "ids", t)) for t in range(3))
+        cnt = ";".join(query_one(m, ("q", "cnt", t)) for t in range(3))
+        cps = ";".join(query_one(m, ("q", "cps", t, s_)) for t in range(3) for s_ in range(3))
+        lk = ";".join(_agent_str(i, m.agent(i)) for i in range(hint + 2))
+        nx = ";".join(query_one(m, ("q", "nx", t, s_)) for t in range(3) for s_ in range(3))
+        return f"{ids};{cnt};{cps};{lk};{nx};next=*"
     T, S = range(3), range(3)
     ids = ";".join(query_one(m, ("q", "ids", t)) for t in T)
     cnt = ";".join(query_one(m, ("q", "cnt", t)) for t in T)
@@ -343,15 +359,22 @@ def spec_violations(m, sh, contract):
     `contract` = the history's factories are faithful and nothing mutated a returned list: the whole
     statement applies; otherwise only its factory-independent clauses (ids, lookup, next_agent)."""
     out = []
-    ids_live = [a.id for a in m.agents]
+    nxt = own(m, "next_agent_id")
+    nxt_known = isinstance(nxt, int)
+    bound = nxt if nxt_known else sh.next
+    ags = own(m, "agents")
+    if isinstance(ags, (list, tuple)):
+        ids_live = [a.id for a in ags]
+    else:                                              # `agents` renamed: what the public lookup finds
+        ids_live = [i for i in range(bound + 2) if m.agent(i) is not None]
     live_ids = [a[0] for a in sh.live]
     if len(set(ids_live)) != len(ids_live):
         out.append(("ids-not-unique", f"live ids {ids_live}"))
     if sorted(ids_live) != sorted(live_ids):
         out.append(("live-set", f"live ids {ids_live} expected {live_ids}"))
-    if m.next_agent_id != sh.next:
-        out.append(("next-id", f"next_agent_id {m.next_agent_id} expected {sh.next}"))
-    for i in range(m.next_agent_id + 2):
+    if nxt_known and nxt != sh.next:
+        out.append(("next-id", f"next_agent_id {nxt} expected {sh.next}"))
+    for i in range(bound + 2):
         a = m.agent(i)
         exp = next((x for x in sh.live if x[0] == i), None)
         if (a is None) != (exp is None) or (a is not None and (a.id != i or _tyidx(a.agent_type) != exp[1] or STATES.index(a.state) != exp[2])):
@@ -516,7 +539,7 @@ def run_history_gen(h):
                 else:
                     spec_ok = False       # what a raising operation leaves behind is not fixed by the statement
             if h.mode == "full":
-                req.append("query"); real.append(query_real(m))
+                req.append("query"); real.append(query_real(m, sh.next))
                 if spec_ok:
                     v = v + spec_violations(m, sh, contract)
         if v and not viols:
@@ -541,7 +564,7 @@ def run_history_gen(h):
             do(i, op)
         yield
     if h.mode != "full":
-        req.append("query"); real.append(query_real(m))
+        req.append("query"); real.append(query_real(m, sh.next))
         if spec_ok and not viols:
             v = spec_violations(m, sh, contract)
             if v:
@@ -608,33 +631,33 @@ def probe_delete_snapshot():
         for t in "aaaab":
             m.create_agent(t, {})
         m.delete_agents(m.agent_ids("a"))
-        ok1 = list(m.agent_ids("a")) == [] and [a.id for a in m.agents] == [4] and list(m.agent_ids("b")) == [4]
+        alive = lambda: [i for i in range(12) if m.agent(i) is not None]
+        ok1 = list(m.agent_ids("a")) == [] and alive() == [4] and list(m.agent_ids("b")) == [4]
         for t in "aaa":
             m.create_agent(t, {})
-        m.delete_agents(m.agent_type_map["a"])
-        ok2 = list(m.agent_ids("a")) == [] and [a.id for a in m.agents] == [4] and m.agent_count("a") == 0
+        tm = own(m, "agent_type_map")
+        m.delete_agents(tm["a"] if isinstance(tm, dict) else m.agent_ids("a"))
+        ok2 = list(m.agent_ids("a")) == [] and alive() == [4] and m.agent_count("a") == 0
         return ok1 and ok2
     except Exception:
         return False
 
 
 def probe_id_reservation():
-    """When is next_agent_id incremented: observed from inside a factory and from inside initialize()."""
-    from BPTK_Py import Model, Agent, DataCollector, SimultaneousScheduler
-    seen = {}
-    class A(Agent):
-        def initialize(self):
-            seen["init"] = (self.id, self.model.next_agent_id)
-    def factory(aid, model, props):
-        seen["fac"] = (aid, model.next_agent_id)
-        return A(aid, model, props, "a")
-    try:
-        m = Model(1, 3, 1, name="c14p", scheduler=SimultaneousScheduler(), data_collector=DataCollector())
-        m.register_agent_factory("a", factory)
-        m.create_agent("a", {}); m.create_agent("a", {})
-        return seen["fac"][1] == seen["fac"][0] + 1, seen["init"][1] == seen["init"][0] + 1
-    except Exception:
-        return False, False
+    """When is the id counter incremented?  Behavioural (no private attribute is read): a factory that creates an agent
+    gets distinct ids only if the id is reserved before the factory call; an initialize() that creates an agent gets
+    distinct ids only if it is reserved before initialize() at the latest."""
+    def distinct(nest):
+        try:
+            m = new_model(None, nest)
+            m.create_agent("a", {}); m.create_agent("a", {})
+            ids = list(m.agent_ids("a")) + list(m.agent_ids("b"))
+            return len(ids) == 4 and len(set(ids)) == 4
+        except Exception:
+            return False
+    before_factory = distinct({0: ([1], [])})
+    before_init = before_factory or distinct({0: ([], [1])})
+    return before_factory, before_init
 
 
 def probe_registry_per_instance():
@@ -642,41 +665,58 @@ def probe_registry_per_instance():
     try:
         a, b = new_model(), new_model()
         a.create_agent("a", {}); a.create_agent("b", {})
-        ok = list(b.agent_ids("a")) == [] and b.agents == [] and b.next_agent_id == 0 and b.agent_count("b") == 0
-        b.create_agent("a", {})
-        return ok and [x.id for x in b.agents] == [0] and list(a.agent_ids("a")) == [0] and a.next_agent_id == 2 and len(a.agents) == 2
+        ok = list(b.agent_ids("a")) == [] and b.agent(0) is None and b.agent_count("b") == 0
+        x = b.create_agent("a", {})
+        y = a.create_agent("a", {})
+        return (ok and x.id == 0 and list(b.agent_ids("a")) == [0] and list(a.agent_ids("a")) == [0, 2] and y.id == 2
+                and a.agent(1) is not None and b.agent(1) is None)
     except Exception:
         return False
 
 
 def probe_alias():
-    """Is the list returned by agent_ids the registry's own list, and which operations rebind it?"""
+    """Is the list returned by agent_ids the registry's own list (behavioural: does a caller's append show up in
+    agent_count?), and — evidence only, read by attribute name, None when not readable — which operations rebind it?"""
     f = {}
     m = new_model()
     l = m.agent_ids("a")
-    f["idsAliased"] = l is m.agent_type_map["a"]
-    m.create_agent("a", {}); m.create_agent("b", {})
-    f["create_mutates_in_place"] = (l == [0]) and (l is m.agent_type_map["a"])
-    lb = m.agent_type_map["b"]
-    m.delete_agent(0)
-    f["delete_rebinds_affected_type"] = m.agent_type_map["a"] is not l
-    f["delete_keeps_other_type_object"] = m.agent_type_map["b"] is lb
-    la = m.agent_type_map["a"]
-    m.configure_agents([{"name": "a", "count": 1}])
-    f["configure_rebinds"] = m.agent_type_map["a"] is not la and m.agent_type_map["b"] is not lb
-    la = m.agent_type_map["a"]
-    m.reset()
-    f["reset_rebinds"] = m.agent_type_map["a"] is not la
-    ags = m.agents
-    m.create_agent("a", {})
-    f["create_appends_agents_in_place"] = m.agents is ags
-    m.delete_agent(99)
-    f["delete_rebinds_agents"] = m.agents is not ags
-    # a caller that only reads a returned list: it is a live view until the next rebinding operation
-    m2 = new_model(); v = m2.agent_ids("a"); m2.create_agent("a", {})
-    f["held_list_sees_later_creates"] = v == [0]
-    m2.reset(); m2.create_agent("a", {})
-    f["held_list_stale_after_reset"] = v == [0] and m2.agent_ids("a") == [1]
+    try:
+        l.append(777)
+        f["idsAliased"] = m.agent_count("a") == 1
+        l.remove(777)
+    except Exception:
+        f["idsAliased"] = False
+    def note(key, fn):
+        try:
+            f[key] = fn()
+        except Exception:
+            f[key] = None
+    try:
+        tm = lambda t: m.agent_type_map[t]
+        m.create_agent("a", {}); m.create_agent("b", {})
+        note("create_mutates_in_place", lambda: (l == [0]) and (l is tm("a")))
+        lb = (own(m, "agent_type_map") or {}).get("b")
+        m.delete_agent(0)
+        note("delete_rebinds_affected_type", lambda: tm("a") is not l)
+        note("delete_keeps_other_type_object", lambda: tm("b") is lb)
+        la = (own(m, "agent_type_map") or {}).get("a")
+        m.configure_agents([{"name": "a", "count": 1}])
+        note("configure_rebinds", lambda: tm("a") is not la and tm("b") is not lb)
+        la = (own(m, "agent_type_map") or {}).get("a")
+        m.reset()
+        note("reset_rebinds", lambda: tm("a") is not la)
+        ags = own(m, "agents")
+        m.create_agent("a", {})
+        note("create_appends_agents_in_place", lambda: m.agents is ags)
+        m.delete_agent(99)
+        note("delete_rebinds_agents", lambda: m.agents is not ags)
+        # a caller that only reads a returned list: it is a live view until the next rebinding operation
+        m2 = new_model(); v = m2.agent_ids("a"); m2.create_agent("a", {})
+        f["held_list_sees_later_creates"] = v == [0]
+        m2.reset(); m2.create_agent("a", {})
+        f["held_list_stale_after_reset"] = v == [0] and m2.agent_ids("a") == [1]
+    except Exception as ex:
+        f["probe_error"] = repr(ex)
     return f
 
 
@@ -1063,6 +1103,8 @@ def run(chk):
     def compare(fut, req, real, owner):
         """diff one chunk (model replies vs real replies); keeps the first difference of each class"""
         model = fut.result()
+        model = [a.rsplit("next=", 1)[0] + "next=*" if isinstance(b, str) and b.endswith("next=*") and "next=" in a else a
+                 for a, b in zip(model, real)] + model[len(real):]
         alld = [i for i, (a, b) in enumerate(zip(model, real)) if b is not None and a != b]
         if len(model) != len(real):
             alld.append(min(len(model), len(real)))
